@@ -3,8 +3,11 @@ package c09
 import (
 	"bytes"
 	"context"
+	"errors"
 	"fmt"
 	"net"
+	"sync"
+	"sync/atomic"
 	"time"
 
 	"github.com/plgd-dev/go-coap/v3/dtls"
@@ -12,6 +15,7 @@ import (
 	"github.com/plgd-dev/go-coap/v3/message/pool"
 
 	"verifharness/netenv"
+	"verifharness/sim"
 	"verifharness/vr"
 )
 
@@ -113,5 +117,64 @@ func silentHandshake(rec *vr.Rec, reps int) {
 			rec.Violation("C09/dtls/handshake-pending/done-not-signalled", "Close() returned but Done() is not closed", c)
 		}
 		_ = pc.Close()
+	}
+}
+
+// brokenAtSetup: a stream connection whose very first write - the capabilities message every stream connection starts with -
+// fails (the other end is already gone, a tls peer that talks garbage). The connection object is still handed to the
+// application (tcp.Client returns it, servers announce it through OnNewConn), which registers on-close callbacks, closes it
+// and waits for its done signal like for any other connection: Close must complete the done signal and run every
+// callback exactly once.
+func brokenAtSetup(rec *vr.Rec, reps int) {
+	for rep := 0; rep < reps; rep++ {
+		closers := 1 + rep%3
+		c := map[string]any{"scenario": "stream connection whose first write (capabilities message) fails", "concurrent_closers": closers, "close_before_callbacks_registered": rep%2 == 1}
+		sc := sim.NewScriptConn()
+		sc.WriteErr = errors.New("write: broken pipe")
+		cc, err := sim.NewTCPConn(sc, sim.TCPOpts{})
+		rec.Eval(fmt.Sprintf("broken-at-setup|%d", rep))
+		rec.Count("broken_at_setup_cases", 1)
+		if err != nil || cc == nil {
+			// refusing to hand out such a connection is clean too
+			rec.Count("broken_at_setup_refused_by_constructor", 1)
+			continue
+		}
+		var ran atomic.Int32
+		cc.AddOnClose(func() { ran.Add(1) })
+		cc.AddOnClose(func() { ran.Add(1) })
+		closed := make(chan struct{})
+		go func() {
+			var wg sync.WaitGroup
+			for k := 0; k < closers; k++ {
+				wg.Add(1)
+				go func() { defer wg.Done(); _ = cc.Close() }()
+			}
+			wg.Wait()
+			close(closed)
+		}()
+		select {
+		case <-closed:
+		case <-time.After(watchdog):
+			rec.Violation("C09/tcp/broken-at-setup/close-does-not-return", "Close() on a connection whose capabilities message could not be written", c)
+			continue
+		}
+		select {
+		case <-cc.Done():
+		case <-time.After(watchdog):
+			rec.Violation("C09/tcp/broken-at-setup/done-not-signalled", fmt.Sprintf("Close() returned, the done signal had not completed %v later (on-close callbacks run so far: %d of 2)", watchdog, ran.Load()), c)
+			continue
+		}
+		// callbacks run before the done signal completes
+		if n := ran.Load(); n != 2 {
+			rec.Violation("C09/tcp/broken-at-setup/on-close-callbacks", fmt.Sprintf("2 callbacks registered, %d invocations after the done signal", n), c)
+			continue
+		}
+		ctx, cancel := context.WithTimeout(context.Background(), time.Second)
+		_, gerr := cc.Get(ctx, "/a")
+		cancel()
+		if gerr == nil {
+			rec.Violation("C09/tcp/broken-at-setup/request-succeeds-on-closed-connection", "", c)
+		}
+		rec.Count("broken_at_setup_closed_cleanly", 1)
 	}
 }
